@@ -61,7 +61,24 @@ def scan_forbidden():
 
 
 def check_property(prop):
-    """-> dict(ok, obligations, discharged, theorems, assumptions, errors, checker_cmd)"""
+    """Props/<prop>.v plus, when present, its continuation Props/<prop>b.v (theorems that need proof files which
+    themselves depend on Props/<prop>.v).  -> dict(ok, obligations, discharged, theorems, assumptions, errors, checker_cmd)"""
+    res = check_one(prop)
+    if os.path.exists(os.path.join(paths.COQ, 'theories', 'Props', prop + 'b.v')) and not prop.endswith('b'):
+        more = check_one(prop + 'b')
+        res['ok'] = res['ok'] and more['ok']
+        for k in ('obligations', 'discharged'):
+            res[k] += more[k]
+        for k in ('theorems', 'errors'):
+            res[k] += more[k]
+        res['assumptions'] = sorted(set(res['assumptions']) | set(more['assumptions']))
+        res['checker_cmd'] += ' ; ' + more['checker_cmd']
+        if not res['ok']:
+            res['discharged'] = 0
+    return res
+
+
+def check_one(prop):
     rel = 'theories/Props/%s.v' % prop
     src = os.path.join(paths.COQ, rel)
     res = dict(ok=False, obligations=0, discharged=0, theorems=[], assumptions=[], errors=[],
